@@ -165,9 +165,11 @@ func isMarker(data []byte) (name string, after []byte) {
 	}
 	if i := bytes.IndexByte(data, '\n'); i >= 0 {
 		data, after = data[:i], data[i+1:]
-		if data[i-1] == '\r' {
-			data = data[:len(data)-1]
-		}
+	}
+	// A marker line may end in CRLF, or in a bare CR at the end of the input
+	// (where Parse adds the missing newline).
+	if data[len(data)-1] == '\r' {
+		data = data[:len(data)-1]
 	}
 	if !(bytes.HasSuffix(data, markerEnd) && len(data) >= len(marker)+len(markerEnd)) {
 		return "", nil
